@@ -8,8 +8,9 @@ from lib.core import *
 
 ID = "C11"
 PROPS_FILES = ["Gama/Props/C11.lean", "Gama/Props/C11Lang.lean", "Gama/Props/C11Values.lean", "Gama/Props/C11Valid.lean",
-               "Gama/Props/C11Refuse.lean"]
-LEAN_TARGETS = ["Gama.Props.C11", "Gama.Props.C11Lang", "Gama.Props.C11Values", "Gama.Props.C11Valid", "Gama.Props.C11Refuse"]
+               "Gama/Props/C11Refuse.lean", "Gama/Props/C11Xsd.lean", "Gama/Props/C11LitEq.lean"]
+LEAN_TARGETS = ["Gama.Props.C11", "Gama.Props.C11Lang", "Gama.Props.C11Values", "Gama.Props.C11Valid", "Gama.Props.C11Refuse",
+                "Gama.Props.C11Xsd", "Gama.Props.C11LitEq"]
 DRIVERS = ["drv_gkf"]
 
 LEVEL_TEXT = (
@@ -74,6 +75,12 @@ LEVEL_TEXT = (
     "check too) can produce, whose operands are in the hand table of operand languages leafKind and whose two cov-mat number tests hold "
     "(WriterData), is accepted by the reader model (C11_reader_accepts_writer_output; structure by one decide of an abstract run of the "
     "reader's control over the skeleton, C11_reader_structure_covers_writer); oracle: gama-local's own results through the real reader.  "
+    "Round 11: xml/gama-local.xsd is translated on every run (tools/gen/c11_xsd.py -> Gen/GkfXsd.lean) and the documented tables are compared with it by "
+    "decide in both directions (C11_document_rules_match_xsd: names equal except xmlns, required = use=required plus from of dh/vec, value kinds and "
+    "enumerations equal; C11_xsd_nesting_is_grammar: content models with occurrence bounds = the tree type and Cluster.valid; C11_rules_beyond_xsd, "
+    "C11_ranges_beyond_xsd: what the documented rules add, as data); the rule documents of the oracle are generated from the schema's required "
+    "attributes and 114 schema-valid documents (an optional attribute dropped) must be accepted; the three Lean copies of IsInteger/IsFloat (C11 Lit, "
+    "C18 Literals, C07 PointId) are proved equal for all strings with the two exact differences stated (C11_literal_recognisers_agree).  "
     "Memory safety, termination and the located diagnostic of the real process are NOT "
     "proved: they are explored by running gama-local built with ASan+UBSan on grammar-derived, mutated and truncated inputs.")
 LEVEL_NOTE = (
@@ -103,8 +110,12 @@ TRUSTED = ["tools/gen/c11_gkf_automaton.py (mini-parser of gkfparser.cpp/.h; rai
            "c11_dataparser.py also emits Gen/DataParserConds.lean: every condition as pure / fails / lit / other with the kinds of the extracted variables)",
            "tools/gen/c12_skeleton.py + c12_sites.py (C12's translators of LocalNetworkXML::write, called by the C11 check to regenerate "
            "Gen/XmlSkeleton.lean / Gen/XmlSites.lean, the writer side of C11_reader_accepts_writer_output)",
+           "tools/gen/c11_xsd.py (reader of xml/gama-local.xsd: only the schema constructs that occur in the file, TieBroken on anything else)",
            "Model/GkfDocTree.lean / GkfDocRefuse.lean / GkfDocValues.lean: hand definitions Doc'.valid, valuesOk, firstBad, inVocab over the hand tables "
-           "docRules, docCheck, Leaf'.count, tagHandler, bandElems, kidTags (from gama-local.xsd + manual; tied to the regenerated tables by decide in both directions)",
+           "docRules, docCheck, Leaf'.count, tagHandler, bandElems, kidTags: since round 11 compared by decide with the REGENERATED schema (Gen/GkfXsd.lean: "
+           "attribute names, required attributes, value kinds and enumerations, children and occurrence bounds; differences are data: xmlns, from of "
+           "dh/vec, the rules and ranges beyond the schema) and with the regenerated tables of the parser, both in both directions; what stays trusted of "
+           "them is what neither states: Leaf'.count, bandElems (compared with finish_cov), the five ranges from the manual, emptyAbsent flags",
            "Model/AdjResWriter.lean: hand tables leafKind (language of the operand the writer streams into each element: isInteger / isFloat / "
            "apriori|aposteriori / free) and attrReq; that a finite double rendered by operator<< in scientific format is in FloatLang is NOT proved "
            "(hypothesis WriterData of C11_reader_accepts_writer_output, with the cov-mat count tests dim <= unknowns and tmp_i == tmp_e)",
@@ -129,6 +140,10 @@ _spec = importlib.util.spec_from_file_location("c11_gkf_automaton", str(VERIF / 
 _tr = importlib.util.module_from_spec(_spec)
 _spec.loader.exec_module(_tr)
 _tr.TieBroken = TieBroken
+_spx = importlib.util.spec_from_file_location("c11_xsd", str(VERIF / "tools" / "gen" / "c11_xsd.py"))
+_xsd = importlib.util.module_from_spec(_spx)
+_spx.loader.exec_module(_xsd)
+_xsd.TieBroken = TieBroken
 
 
 # the other two parsers of the property's statement: own translator + model + event stream each
@@ -148,7 +163,7 @@ for _m in SUBS:
 
 def translate(ctx):
     errs = []
-    for f in [lambda c: _tr.run(c.repo, c.verif)] + [m.translate for m in SUBS]:
+    for f in [lambda c: _tr.run(c.repo, c.verif), lambda c: _xsd.run(c.repo, c.verif)] + [m.translate for m in SUBS]:
         try:
             f(ctx)
         except TieBroken as e:       # regenerate the other tables all the same; report the first broken translator
@@ -697,7 +712,58 @@ REQ_ATTRS = {"point": ["id"], "direction": ["to", "val"], "distance": ["to", "va
              "vec": ["from", "to", "dx", "dy", "dz"], "cov-mat": ["dim", "band"]}
 
 
-def rule_docs():
+# required by the documented rules and the parser, optional in the schema (Lemmas/GkfXsd.lean `requiredDiff`)
+REQ_BEYOND_XSD = {"dh": ["from"], "vec": ["from"]}
+
+
+def xsd_required(repo):
+    """the required attributes per element as the CURRENT xml/gama-local.xsd declares them (tools/gen/c11_xsd.py) plus REQ_BEYOND_XSD;
+    on the unchanged tree this is REQ_ATTRS (C11_document_rules_match_xsd); the oracle documents of rule_docs() are generated from it, so
+    an attribute the schema newly requires and the parser does not check yields a concrete accepted document.  None if unreadable."""
+    try:
+        _ns, elements = _xsd.read_schema(repo)
+    except TieBroken:
+        return None
+    req = {}
+    for name, _parts, attrs, _mixed in elements:
+        r = REQ_BEYOND_XSD.get(name, []) + [a for a, _ty, required, _d in attrs if required]
+        if r:
+            req[name] = r
+    return req
+
+
+def xsd_optional_docs(repo):
+    """the other direction of C11_document_rules_match_xsd on the IMPLEMENTATION: in every valid context, an attribute the CURRENT
+    xml/gama-local.xsd declares OPTIONAL for the element is dropped; the document stays schema-valid and must be ACCEPTED — except where a
+    documented rule beyond the schema applies (C11_rules_beyond_xsd / requiredDiff), which is decided here from the document text:
+    `from` of <dh>/<vec> (REQ_BEYOND_XSD), `from` of an observation inside an <obs> without `from` (reqFrom, inherited), x without y / y without x
+    (pair), a coordinate of a <point> inside <coordinates> (changes the number of observations of the cluster: dim rule).
+    So an attribute the schema newly calls optional although the parser requires it yields a concrete refused document.  Deterministic."""
+    try:
+        _ns, elements = _xsd.read_schema(repo)
+    except TieBroken:
+        return []
+    optional = {name: [a for a, _ty, required, _d in attrs if not required] for name, _p, attrs, _m in elements}
+    out = []
+    for ci, (tag, attrs, wrap) in enumerate(value_contexts()):
+        for k in [a for a, _ in attrs]:
+            if k not in optional.get(tag, []) or k in REQ_BEYOND_XSD.get(tag, []):
+                continue
+            at = [(a, v) for a, v in attrs if a != k]
+            text = doc_text(wrap(El(tag, at)))
+            if k == "from" and tag != "obs" and "<obs>" in text:
+                continue                                     # reqFrom: nothing to inherit
+            if tag == "direction" and "<obs>" in text:
+                continue                                     # inherited: a <direction> has no `from` of its own
+            if tag == "obs" and k == "from":
+                continue                                     # its <distance> then has no standpoint
+            if tag == "point" and k in ("x", "y", "z") and ("<coordinates" in text or k in ("x", "y")):
+                continue                                     # pair rule / number of observations of <coordinates>
+            out.append((f"xsd-optional: context {ci} <{tag}> without optional attribute {k}", text.encode("utf-8"), -1, "accept"))
+    return out
+
+
+def rule_docs(req_attrs=None):
     """documents that break exactly ONE documented rule (theorems C11_rule_violation_located / C11_dim_mismatch_located):
     a required attribute absent or empty, `from` neither on the observation nor on <obs>, x without y, a non-positive distance,
     `fs` = standpoint, band >= dim  -> refused naming the line of that element;  `dim` of <cov-mat> != number of observations of the
@@ -716,7 +782,7 @@ def rule_docs():
             out.append((f"rule: {label}", text.encode("utf-8"), -1, ("refuse", ln, what, reason)))
 
     for ci, (tag, attrs, wrap) in enumerate(value_contexts()):
-        for k in REQ_ATTRS.get(tag, []):
+        for k in (req_attrs if req_attrs is not None else REQ_ATTRS).get(tag, []):
             if k not in [a for a, _ in attrs]:
                 continue
             for mode in ("absent", "empty"):
@@ -1639,9 +1705,16 @@ def _gkf_streams(ctx, corr, exe):
                 docs.append((f"allsplits mutated {j}: {what}", mb, k, None))
     vd = value_docs(rng, ctx.size(700, 15000))
     docs += vd
-    rd = rule_docs()
+    xreq = xsd_required(ctx.repo)
+    rd = rule_docs(xreq)
     docs += rd
     corr.count("rule_docs", len(rd))
+    corr.count("rule_docs_required_attributes_from_xsd", sum(len(v) for v in (xreq or {}).values()))
+    if xreq is not None and {k: sorted(v) for k, v in xreq.items()} != {k: sorted(v) for k, v in REQ_ATTRS.items()}:
+        ctx.log("required attributes of xml/gama-local.xsd differ from the documented table REQ_ATTRS: rule documents follow the schema")
+    xo = xsd_optional_docs(ctx.repo)
+    docs += xo
+    corr.count("xsd_optional_docs", len(xo))
     fv = first_violation_docs()
     docs += fv
     corr.count("first_violation_docs", len(fv))
